@@ -45,6 +45,9 @@ pub enum Edit {
     HugeApp,
     /// the callback itself fails
     CallbackErr,
+    /// content changes, serialised size does not: application ids get a bit flipped, picture
+    /// dimensions change, the comment's TITLE keeps its length but not its text
+    SameSizeChange { salt: u8 },
 }
 
 #[derive(Serialize, Deserialize, Clone, Debug, Hash, PartialEq, Eq)]
@@ -53,6 +56,9 @@ pub struct UpdateCase {
     pub edits: Vec<Edit>,
     /// use `metadata::update` on a real file instead of `update_file` in memory
     pub on_disk: bool,
+    /// 0 = the rebuild target accepts every write in full; n > 0 = at most n bytes per write call
+    #[serde(default)]
+    pub short_rebuild: u16,
 }
 
 thread_local! {
@@ -218,6 +224,23 @@ fn apply_edit(e: &Edit, bl: &mut BlockList) -> Result<(), flac_codec::Error> {
             bl.insert(Application { id: 1, data: vec![0; 1 << 24] });
         }
         Edit::CallbackErr => return Err(flac_codec::Error::InvalidSeek),
+        Edit::SameSizeChange { salt } => {
+            for a in bl.get_all_mut::<Application>() {
+                a.id ^= 1 + (*salt as u32 & 0x7F);
+                for b in a.data.iter_mut().take(3) {
+                    *b ^= 0x5A;
+                }
+            }
+            for p in bl.get_all_mut::<Picture>() {
+                p.width = p.width.wrapping_add(1 + *salt as u32);
+            }
+            bl.update::<VorbisComment>(|vc| {
+                if let Some(old) = vc.get("TITLE").map(|s| s.to_string()) {
+                    let c = if old.starts_with('q') { 'r' } else { 'q' };
+                    vc.set("TITLE", std::iter::repeat_n(c, old.chars().count()).collect::<String>());
+                }
+            });
+        }
     }
     Ok(())
 }
@@ -306,6 +329,9 @@ impl Engine for Updates {
             let edited: RefCell<Option<Vec<Block>>> = RefCell::new(None);
             let before = BlockList::read(Cursor::new(&old)).ok();
             let expect_err = before.as_ref().map(|b| must_fail(e, b)).unwrap_or(false);
+            let mut rebuilt_sink = crate::iow::RecWriter::new();
+            rebuilt_sink.log_ops = false;
+            rebuilt_sink.max_write = c.short_rebuild as usize;
             let mut rebuilt: Vec<u8> = vec![];
             let mut rebuilt_called = false;
             let disk_path = format!("{}/.scratch/c10-{:?}-{}.flac", crate::util::root(), std::thread::current().id(), step).replace(['(', ')'], "");
@@ -343,11 +369,12 @@ impl Engine for Updates {
                         &mut orig,
                         || {
                             rebuilt_called = true;
-                            Ok(&mut rebuilt)
+                            Ok(&mut rebuilt_sink)
                         },
                         f,
                     );
                     cur = orig.into_inner();
+                    rebuilt = std::mem::take(&mut rebuilt_sink.data);
                     r
                 }
             });
@@ -472,6 +499,7 @@ pub fn edit_strategy() -> BoxedStrategy<Edit> {
         1 => Just(Edit::Noop),
         1 => Just(Edit::SecondPngIcon),
         1 => Just(Edit::CallbackErr),
+        2 => any::<u8>().prop_map(|salt| Edit::SameSizeChange { salt }),
     ]
     .boxed()
 }
@@ -494,8 +522,13 @@ pub fn run(ctx: &Ctx) {
         Tier::Thorough => 6_000_000,
     };
     ctx.search(&Updates, n, || {
-        (base_strategy(), proptest::collection::vec(edit_strategy(), 1..=5), prop_oneof![30 => Just(false), 1 => Just(true)])
-            .prop_map(|(base, edits, on_disk)| UpdateCase { base, edits, on_disk })
+        (
+            base_strategy(),
+            proptest::collection::vec(edit_strategy(), 1..=5),
+            prop_oneof![30 => Just(false), 1 => Just(true)],
+            prop_oneof![4 => Just(0u16), 1 => 1u16..200, 1 => 200u16..5000],
+        )
+            .prop_map(|(base, edits, on_disk, short_rebuild)| UpdateCase { base, edits, on_disk, short_rebuild })
             .boxed()
     });
     // the 24-bit limit: first padding block a bytes below 2^24 - 1, first edit frees b bytes:
@@ -515,6 +548,7 @@ pub fn run(ctx: &Ctx) {
                     Edit::SetTitle { len: 100 },
                 ],
                 on_disk: false,
+                short_rebuild: 0,
             });
         }
     }
